@@ -1,4 +1,941 @@
-use simkit::Outcome;
-pub const RULE: &str = "todo";
-pub fn run() -> Outcome { todo!() }
-pub fn run_c12_files() -> Outcome { todo!() }
+//! E3 `httpcache` — C16: the on-disk symbol cache only ever holds complete, parseable files.
+//!
+//! Real `HttpSymbolSupplier` (fetch_symbol_file, fetch_lookup, create/commit_cache_file, code-id
+//! redirect lookup, local-before-network cascade) and real `parse_async`, over the simulated
+//! transport (reqwest-sim), the simulated temp-file layer (tempfile-sim) and the real kernel
+//! file system in a private scratch tree.  1–3 supplier instances share `cache/` and `tmp/`
+//! (instances stand for processes); lookups are executor tasks that may be dropped at any poll
+//! boundary.  The file-system invariant is evaluated at every temp-file seam event and after
+//! every executor step.
+
+use crate::common::{draw_delay, draw_exec_config, exec_config_json, list_tree, Scratch};
+use crate::symgen::{self, SymOpts};
+use breakpad_symbols::{
+    breakpad_sym_lookup, FileKind, HttpSymbolSupplier, Module, SimpleModule, SymbolError, SymbolFile,
+    SymbolSupplier,
+};
+use debugid::{CodeId, DebugId};
+use reqwest::sim::{BodyEnd, Plan, RequestInfo};
+use serde_json::json;
+use simkit::{ch, chance, probe, range, Exec, Outcome, Stop, Violation};
+use std::cell::RefCell;
+use std::collections::BTreeMap;
+use std::path::{Path, PathBuf};
+use std::rc::Rc;
+use std::str::FromStr;
+use std::time::Duration;
+use tempfile::sim as tsim;
+
+pub const RULE: &str = "Each run draws from one tape: 1-2 modules with benign names (spaces, dots, unicode, Windows/POSIX directories before the leaf; optionally without debug info so that the code-id redirect lookup runs), 1-3 supplier instances sharing cache/ and tmp/, 1-2 server URLs, a per-request server behaviour (200 with a body in tape-chosen chunks and delays | 404 | 500 | connect error | body reset after k bytes | clean EOF after k bytes | corrupt body | body without final newline | stall until the client's timeout fires), per task an optional cancellation after c polls with optional retry, a pre-existing cache entry (none | good | corrupt | a directory at the entry path), tmp/ missing, cache parent blocked by a file, temp-file faults (ENOSPC/EIO on create, short write, EINTR, torn write + ENOSPC, persist failure) and a rival process committing the same entry at the persist seam or mid-download. The invariant (every regular file under cache/ is a permitted complete entry, tmp/ holds only live temp files) is evaluated at every temp-file call and after every executor step; at the end every new entry is reloaded through a fresh supplier with no network. NON-TRIVIAL iff at least one download delivered at least one body chunk and at least one fault, cut, cancellation, rival action or second instance occurred. DISTINCT = distinct (world, decision trace) digests among non-trivial runs.";
+
+const DEBUG_IDS: [&str; 2] = ["5A9832E5287241C1838ED98914E9B7FF1", "0123456789ABCDEF0123456789ABCDEF2"];
+
+#[derive(Clone)]
+struct ModSpec {
+    /// As seen in the dump (may lack debug info).
+    module: Rc<SimpleModule>,
+    /// With debug info resolved (what the supplier looks up after a code-id redirect).
+    resolved: Rc<SimpleModule>,
+    needs_code_lookup: bool,
+    /// Cache-relative path of the .sym entry.
+    rel: String,
+    /// The complete, valid symbol file the server has for it.
+    body: Rc<Vec<u8>>,
+}
+
+fn benign_leaf(i: u32) -> &'static str {
+    ["mod.pdb", "lib foo.so", "a.b.c.pdb", "\u{fc}n\u{ef}.pdb", "xul.PDB", "libc++.so.1", "plain"][i as usize % 7]
+}
+
+fn dir_prefix(i: u32) -> &'static str {
+    ["", "C:\\build\\out\\", "/usr/lib/", "c:/mixed\\sep/", "..\\rel\\"][i as usize % 5]
+}
+
+fn draw_module(idx: usize) -> ModSpec {
+    let leaf = benign_leaf(ch("e3.mod.leaf", 7));
+    let debug_file = format!("{}{}", dir_prefix(ch("e3.mod.dir", 5)), leaf);
+    let debug_id = DebugId::from_str(DEBUG_IDS[idx % 2]).unwrap();
+    let code_file = format!("{}{}", dir_prefix(ch("e3.mod.cdir", 5)), ["app.exe", "mod.dll", "lib foo.so"][ch("e3.mod.code", 3) as usize]);
+    let code_id = CodeId::new(format!("5EEDC0DE{}000", idx + 1));
+    let resolved = SimpleModule {
+        code_file: Some(code_file.clone()),
+        code_identifier: Some(code_id.clone()),
+        debug_file: Some(debug_file.clone()),
+        debug_id: Some(debug_id),
+        ..SimpleModule::default()
+    };
+    let needs_code_lookup = chance("e3.mod.nodebug", 1, 8);
+    let module = if needs_code_lookup {
+        SimpleModule {
+            code_file: Some(code_file),
+            code_identifier: Some(code_id),
+            ..SimpleModule::default()
+        }
+    } else {
+        SimpleModule {
+            code_file: resolved.code_file.clone(),
+            code_identifier: resolved.code_identifier.clone(),
+            debug_file: resolved.debug_file.clone(),
+            debug_id: resolved.debug_id,
+            ..SimpleModule::default()
+        }
+    };
+    let rel = breakpad_sym_lookup(&resolved).unwrap().cache_rel;
+    // a valid body
+    let mut opts = SymOpts::default();
+    opts.fatal_lines = false;
+    opts.extremes = false;
+    opts.max_records = [6, 20, 40][ch("e3.body.size", 3) as usize];
+    let mut doc = symgen::gen_doc(&opts);
+    if doc.lines.first().map(|l| !l.starts_with(b"MODULE ")).unwrap_or(true) {
+        doc.lines.insert(0, b"MODULE Linux x86 000000000000000000000000000000000 x".to_vec());
+    }
+    doc.lines[0] = format!("MODULE Linux x86 {} {}", debug_id.breakpad(), leaf).into_bytes();
+    if chance("e3.body.bulk", 1, 6) {
+        // cross the 10 KiB parse buffer so that the tee callback writes several times
+        let seed = ch("e3.body.bulk.seed", 1000) as u64;
+        let n = range("e3.body.bulk.n", 100, 900);
+        for i in 0..n {
+            doc.lines.push(format!("PUBLIC {:x} 0 filler_{}_{}", 0x200000 + i * 16, seed, i).into_bytes());
+        }
+    }
+    let (body, _) = symgen::render(&doc, symgen::draw_eol(), true);
+    ModSpec {
+        module: Rc::new(module),
+        resolved: Rc::new(resolved),
+        needs_code_lookup,
+        rel,
+        body: Rc::new(body),
+    }
+}
+
+#[derive(Clone, Debug, PartialEq)]
+enum Pre {
+    None,
+    Good,
+    Corrupt,
+    Directory,
+}
+
+#[derive(Clone, Copy, Debug, PartialEq)]
+enum OpKind {
+    Symbols,
+    File(FileKind),
+}
+
+#[derive(Clone, Debug)]
+struct Op {
+    inst: usize,
+    module: usize,
+    kind: OpKind,
+    cancel_after: Option<u64>,
+    retry: bool,
+}
+
+#[derive(Debug)]
+enum OpResult {
+    Symbols(Result<SymbolFile, SymbolError>),
+    File(Result<PathBuf, ()>),
+}
+
+struct Model {
+    cache: PathBuf,
+    tmp: PathBuf,
+    mods: Vec<ModSpec>,
+    /// rel -> contents that were there before the run (or created by the rival process)
+    foreign: BTreeMap<String, Vec<Vec<u8>>>,
+    /// request id -> memoised "delivered bytes parse"
+    parses: BTreeMap<usize, bool>,
+    live_temps: Vec<PathBuf>,
+    violation: Option<Violation>,
+    fs_checks: u64,
+    /// rel paths of binary / debug-file entries (fetch_lookup): url path -> rel
+    file_rels: BTreeMap<String, String>,
+    sym_urls: BTreeMap<String, usize>, // url-without-query -> module index
+    rival_pending: Option<(String, Vec<u8>)>,
+}
+
+fn url_without_query(u: &str) -> String {
+    u.split('?').next().unwrap_or(u).to_string()
+}
+
+impl Model {
+    fn permitted(&mut self, rel: &str, content: &[u8]) -> Result<(), &'static str> {
+        if let Some(v) = self.foreign.get(rel) {
+            if v.iter().any(|c| c == content) {
+                return Ok(());
+            }
+        }
+        let snaps = reqwest::sim::snapshots();
+        // a .sym entry: delivered ++ trailer of a clean, parseable download of this rel
+        let mut any_for_rel = false;
+        for s in &snaps {
+            let base = url_without_query(&s.info.url);
+            if let Some(&mi) = self.sym_urls.get(&base) {
+                if self.mods[mi].rel != rel {
+                    continue;
+                }
+                any_for_rel = true;
+                if !s.saw_eof {
+                    continue;
+                }
+                let trailer = format!("INFO URL {}\n", s.info.url);
+                if content.len() == s.delivered.len() + trailer.len()
+                    && content.starts_with(&s.delivered)
+                    && content.ends_with(trailer.as_bytes())
+                {
+                    let ok = *self
+                        .parses
+                        .entry(s.info.id)
+                        .or_insert_with(|| SymbolFile::from_bytes(&s.delivered).is_ok());
+                    if ok {
+                        return Ok(());
+                    }
+                    return Err("the entry holds a download whose content does not parse");
+                }
+            } else if let Some(r) = self.file_rels.get(&base) {
+                if r != rel {
+                    continue;
+                }
+                any_for_rel = true;
+                if s.saw_eof && content == &s.delivered[..] {
+                    return Ok(());
+                }
+            }
+        }
+        if !any_for_rel {
+            return Err("a file appeared at a cache path nobody downloaded");
+        }
+        // classify for a stable signature
+        for s in &snaps {
+            if !s.delivered.is_empty() && content.len() <= s.delivered.len() && s.delivered.starts_with(content) && !s.saw_eof {
+                return Err("the entry holds a partial download (body not finished)");
+            }
+            if !s.delivered.is_empty() && content == &s.delivered[..] {
+                return Err("the entry holds the downloaded bytes without the source-URL note");
+            }
+            if content.starts_with(&s.delivered) && !s.delivered.is_empty() && !s.saw_eof {
+                return Err("the entry was committed before the download finished");
+            }
+        }
+        if content.starts_with(b"INFO URL") {
+            return Err("the entry starts with the source-URL note");
+        }
+        Err("the entry's content is neither a complete download plus note nor a pre-existing file")
+    }
+
+    fn check_fs(&mut self) -> simkit::Check {
+        self.fs_checks += 1;
+        let (files, _dirs) = list_tree(&self.cache.clone());
+        for (rel, content) in files {
+            if rel.contains(".simtmp-") {
+                return Err(Violation::new("c16.temp_in_cache", "a temporary file is visible inside the cache directory"));
+            }
+            if let Err(why) = self.permitted(&rel, &content) {
+                return Err(Violation::new("c16.bad_cache_entry", why));
+            }
+        }
+        if self.tmp.is_dir() {
+            let (tfiles, _) = list_tree(&self.tmp.clone());
+            for (rel, _) in &tfiles {
+                let p = self.tmp.join(rel);
+                if !self.live_temps.contains(&p) {
+                    return Err(Violation::new("c16.stray_temp", "a temporary file outlived its download"));
+                }
+            }
+            let in_flight = reqwest::sim::snapshots().iter().filter(|s| s.head_taken && !s.dropped).count();
+            if tfiles.len() > in_flight.max(self.live_temps.len()) {
+                return Err(Violation::new("c16.too_many_temps", "more temporary files than downloads in flight"));
+            }
+        }
+        Ok(())
+    }
+}
+
+struct World {
+    scratch: Scratch,
+    mods: Vec<ModSpec>,
+    urls: Vec<String>,
+    suppliers: Vec<Rc<HttpSymbolSupplier>>,
+    ops: Vec<Op>,
+    pre: Pre,
+    tmp_missing: bool,
+    cache_blocked: bool,
+    timeout_s: u64,
+}
+
+fn good_entry(m: &ModSpec) -> Vec<u8> {
+    let mut v = (*m.body).clone();
+    v.extend_from_slice(b"INFO URL http://earlier.example/run\n");
+    v
+}
+
+fn draw_plan_for(body: &[u8], allow_stall: bool) -> (Plan, &'static str) {
+    let kind = ch("e3.srv.kind", 12);
+    let mut label = "200 full";
+    let mut plan = match kind {
+        0..=4 => Plan::ok(body.to_vec()),
+        5 => {
+            label = "404";
+            Plan::status(404)
+        }
+        6 => {
+            label = "500";
+            Plan::status([500u16, 503, 403][ch("e3.srv.5xx", 3) as usize])
+        }
+        7 => {
+            label = "connect error";
+            Plan::connect_error()
+        }
+        8 => {
+            label = "reset";
+            let k = range("e3.srv.reset_at", 0, body.len() as u64) as usize;
+            let mut p = Plan::ok(body[..k].to_vec());
+            p.end = BodyEnd::Reset;
+            p
+        }
+        9 => {
+            label = "clean cut";
+            let k = range("e3.srv.cut_at", 0, body.len() as u64) as usize;
+            Plan::ok(body[..k].to_vec())
+        }
+        10 => {
+            // corrupt content: damage one line, or drop the final newline
+            label = "corrupt body";
+            let mut b = body.to_vec();
+            if chance("e3.srv.no_final_newline", 1, 3) {
+                while b.last() == Some(&b'\n') || b.last() == Some(&b'\r') {
+                    b.pop();
+                }
+            } else {
+                let nl: Vec<usize> = b.iter().enumerate().filter(|(_, &c)| c == b'\n').map(|(i, _)| i).collect();
+                let at = if nl.is_empty() { 0 } else { nl[ch("e3.srv.corrupt_line", nl.len() as u32) as usize] + 1 };
+                let junk = b"this line is not a record\n";
+                b.splice(at..at, junk.iter().copied());
+            }
+            Plan::ok(b)
+        }
+        _ => {
+            if allow_stall {
+                label = "stall";
+                let k = range("e3.srv.stall_at", 0, body.len() as u64) as usize;
+                let mut p = Plan::ok(body[..k].to_vec());
+                p.end = BodyEnd::Stall;
+                p
+            } else {
+                label = "503";
+                Plan::status(503)
+            }
+        }
+    };
+    plan.head_delay = draw_delay("e3.srv.head_delay");
+    // chunking
+    let mut sizes = Vec::new();
+    let mut left = plan.body.len();
+    let style = ch("e3.srv.chunking", 4);
+    while left > 0 && sizes.len() < 64 {
+        let s = match style {
+            0 => left,
+            1 => 1 + ch("e3.srv.chunk.small", 64) as usize,
+            2 => 1usize << ch("e3.srv.chunk.geo", 15),
+            _ => range("e3.srv.chunk.any", 1, left as u64) as usize,
+        }
+        .min(left);
+        sizes.push(s);
+        left -= s;
+    }
+    plan.chunk_delays = sizes.iter().map(|_| draw_delay("e3.srv.chunk_delay")).collect();
+    plan.chunks = sizes;
+    plan.end_delay = draw_delay("e3.srv.end_delay");
+    (plan, label)
+}
+
+fn build_world(ntasks_max: u32, files_only: bool) -> World {
+    let scratch = Scratch::new("e3");
+    let nmods = 1 + ch("e3.nmods", 2) as usize;
+    let mods: Vec<ModSpec> = (0..nmods).map(draw_module).collect();
+    let nurls = 1 + ch("e3.nurls", 2) as usize;
+    let urls: Vec<String> = (0..nurls).map(|i| format!("http://sym{}.example/base{}", i, if i == 0 { "/" } else { "" })).collect();
+    let ninst = 1 + ch("e3.ninst", 3) as usize;
+    let cache = scratch.root.join("cache");
+    let tmp = scratch.root.join("tmp");
+    let local = scratch.root.join("local");
+    std::fs::create_dir_all(&cache).unwrap();
+    std::fs::create_dir_all(&local).unwrap();
+    let tmp_missing = chance("e3.tmp_missing", 1, 12);
+    if !tmp_missing {
+        std::fs::create_dir_all(&tmp).unwrap();
+    } else {
+        probe("e3.tmp_missing");
+    }
+    // pre-existing entry for module 0
+    let pre = [Pre::None, Pre::None, Pre::None, Pre::Good, Pre::Corrupt, Pre::Directory][ch("e3.pre", 6) as usize].clone();
+    let entry0 = cache.join(&mods[0].rel);
+    let mut cache_blocked = false;
+    match pre {
+        Pre::None => {
+            if chance("e3.cache_blocked", 1, 16) {
+                // the directory that should hold the entry is a regular file
+                let parent = entry0.parent().unwrap().parent().unwrap();
+                std::fs::create_dir_all(parent.parent().unwrap()).unwrap();
+                std::fs::write(parent, b"not a directory").unwrap();
+                cache_blocked = true;
+                probe("e3.cache_blocked");
+            }
+        }
+        Pre::Good => {
+            std::fs::create_dir_all(entry0.parent().unwrap()).unwrap();
+            std::fs::write(&entry0, good_entry(&mods[0])).unwrap();
+        }
+        Pre::Corrupt => {
+            std::fs::create_dir_all(entry0.parent().unwrap()).unwrap();
+            std::fs::write(&entry0, b"MODULE Linux x86 000 x\nthis is garbage\n").unwrap();
+        }
+        Pre::Directory => {
+            std::fs::create_dir_all(&entry0).unwrap();
+        }
+    }
+    let timeout_s = [1000u64, 5, 60][ch("e3.timeout", 3) as usize];
+    let use_local = chance("e3.use_local", 1, 4);
+    let suppliers: Vec<Rc<HttpSymbolSupplier>> = (0..ninst)
+        .map(|_| {
+            Rc::new(HttpSymbolSupplier::new(
+                urls.clone(),
+                cache.clone(),
+                tmp.clone(),
+                if use_local { vec![local.clone()] } else { vec![] },
+                Duration::from_secs(timeout_s),
+            ))
+        })
+        .collect();
+    let nops = 1 + ch("e3.nops", ntasks_max) as usize;
+    let mut ops = Vec::new();
+    for _ in 0..nops {
+        let kind = if files_only || chance("e3.op.file", 1, 6) {
+            OpKind::File([FileKind::Binary, FileKind::ExtraDebugInfo, FileKind::BreakpadSym][ch("e3.op.filekind", 3) as usize])
+        } else {
+            OpKind::Symbols
+        };
+        let cancel_after = if !files_only && chance("e3.op.cancel", 1, 3) { Some(1 + ch("e3.op.cancel_at", 12) as u64) } else { None };
+        ops.push(Op {
+            inst: ch("e3.op.inst", ninst as u32) as usize,
+            module: ch("e3.op.module", nmods as u32) as usize,
+            kind,
+            cancel_after,
+            retry: cancel_after.is_some() && chance("e3.op.retry", 1, 2),
+        });
+    }
+    World {
+        scratch,
+        mods,
+        urls,
+        suppliers,
+        ops,
+        pre,
+        tmp_missing,
+        cache_blocked,
+        timeout_s,
+    }
+}
+
+fn install_transport(world: &World, model: &Rc<RefCell<Model>>) {
+    // which URLs mean what
+    {
+        let mut m = model.borrow_mut();
+        for (mi, ms) in world.mods.iter().enumerate() {
+            for base in &world.urls {
+                let mut b = base.clone();
+                if !b.ends_with('/') {
+                    b.push('/');
+                }
+                let Ok(base_url) = reqwest::Url::parse(&b) else { continue };
+                if let Ok(u) = base_url.join(&ms.rel) {
+                    m.sym_urls.insert(u.as_str().to_string(), mi);
+                }
+                for kind in [FileKind::Binary, FileKind::ExtraDebugInfo] {
+                    if let Some(l) = breakpad_symbols::lookup(&*ms.resolved, kind) {
+                        if let Ok(u) = base_url.join(&l.server_rel) {
+                            m.file_rels.insert(u.as_str().to_string(), l.cache_rel.clone());
+                        }
+                    }
+                }
+            }
+        }
+    }
+    let mods = world.mods.clone();
+    let model2 = model.clone();
+    let allow_stall = true;
+    reqwest::sim::install(move |info: &RequestInfo| {
+        let base = url_without_query(&info.url);
+        let (sym_mod, is_file) = {
+            let m = model2.borrow();
+            (m.sym_urls.get(&base).copied(), m.file_rels.contains_key(&base))
+        };
+        if let Some(mi) = sym_mod {
+            if !info.follows_redirects {
+                // a code-id lookup that happens to equal the sym URL: answer like a plain server
+                return Plan::status(404);
+            }
+            let (plan, label) = draw_plan_for(&mods[mi].body, allow_stall);
+            match label {
+                "reset" => probe("e3.cut_reset"),
+                "clean cut" => probe("e3.cut_clean"),
+                "stall" => probe("e3.stall"),
+                "corrupt body" => probe("e3.corrupt_body"),
+                _ => {}
+            }
+            simkit::log_line(|| format!("server: {} for {}", label, info.url));
+            return plan;
+        }
+        if is_file {
+            // opaque binary / debug file
+            let blob = simkit::blob("e3.file.blob", range("e3.file.len", 0, 3000) as usize);
+            let (plan, label) = draw_plan_for(&blob, allow_stall);
+            simkit::log_line(|| format!("server: {} for file {}", label, info.url));
+            return plan;
+        }
+        if !info.follows_redirects {
+            // code_file/code_id lookup
+            for ms in &mods {
+                if !ms.needs_code_lookup {
+                    continue;
+                }
+                if let Some(p) = breakpad_symbols::code_info_breakpad_sym_lookup(&*ms.module) {
+                    if info.url.ends_with(&url_path_encode(&p)) || info.url.contains(&p) {
+                        return match ch("e3.srv.codeid", 4) {
+                            0 => Plan::status(404),
+                            1 => Plan::connect_error(),
+                            _ => {
+                                probe("e3.code_id_redirect");
+                                let mut plan = Plan::redirect(302, &format!("/some/api/{}", ms.rel));
+                                plan.head_delay = draw_delay("e3.srv.head_delay");
+                                plan
+                            }
+                        };
+                    }
+                }
+            }
+        }
+        Plan::status(404)
+    });
+}
+
+fn url_path_encode(p: &str) -> String {
+    // what Url::join does to the characters our benign names contain
+    reqwest::Url::parse("http://x/").unwrap().join(p).map(|u| u.path()[1..].to_string()).unwrap_or_default()
+}
+
+fn install_tempfile(model: &Rc<RefCell<Model>>, fault_den: u32) {
+    let m1 = model.clone();
+    let decide: tsim::Decide = Box::new(move |op: &tsim::Op| {
+        if fault_den == 0 {
+            return tsim::Fault::None;
+        }
+        match op {
+            tsim::Op::Create { .. } => {
+                if chance("e3.tmp.create_fault", 1, fault_den * 2) {
+                    probe("e3.create_fault");
+                    tsim::Fault::Errno([libc::ENOSPC, libc::EACCES, libc::EMFILE][ch("e3.tmp.create_errno", 3) as usize])
+                } else {
+                    tsim::Fault::None
+                }
+            }
+            tsim::Op::Write { len, .. } => {
+                if chance("e3.tmp.write_fault", 1, fault_den) {
+                    probe("e3.write_fault");
+                    match ch("e3.tmp.write_kind", 4) {
+                        0 => tsim::Fault::Errno(libc::ENOSPC),
+                        1 => tsim::Fault::Interrupted,
+                        2 => tsim::Fault::Short(1 + ch("e3.tmp.short", (*len as u32).max(1)) as usize),
+                        _ => tsim::Fault::TornThenErrno(ch("e3.tmp.torn", *len as u32 + 1) as usize, libc::ENOSPC),
+                    }
+                } else {
+                    tsim::Fault::None
+                }
+            }
+            tsim::Op::Persist { .. } => {
+                if chance("e3.tmp.persist_fault", 1, fault_den) {
+                    probe("e3.persist_fault");
+                    tsim::Fault::Errno([libc::EXDEV, libc::EACCES, libc::ENOSPC][ch("e3.tmp.persist_errno", 3) as usize])
+                } else {
+                    tsim::Fault::None
+                }
+            }
+        }
+    });
+    let observe: tsim::Observe = Box::new(move |ev: &tsim::Event| {
+        simkit::log_line(|| format!("tempfile: {:?}", ev));
+        let mut m = m1.borrow_mut();
+        match ev {
+            tsim::Event::Created { path } => m.live_temps.push(path.clone()),
+            tsim::Event::Dropped { path, .. } => m.live_temps.retain(|p| p != path),
+            tsim::Event::Persisted { from, ok, .. } => {
+                if *ok {
+                    m.live_temps.retain(|p| p != from);
+                }
+            }
+            tsim::Event::PersistBegin { to, .. } => {
+                // the rival process commits the same entry right now
+                if let Some((rel, content)) = m.rival_pending.take() {
+                    if to.ends_with(&rel) {
+                        if std::fs::write(to, &content).is_ok() {
+                            m.foreign.entry(rel).or_default().push(content);
+                            probe("e3.rival_commit");
+                        }
+                    } else {
+                        m.rival_pending = Some((rel, content));
+                    }
+                }
+            }
+            _ => {}
+        }
+        if m.violation.is_none() {
+            if let Err(v) = m.check_fs() {
+                m.violation = Some(v);
+            }
+        }
+    });
+    tsim::install(Some(decide), Some(observe));
+}
+
+fn err_name(e: &SymbolError) -> &'static str {
+    match e {
+        SymbolError::NotFound => "NotFound",
+        SymbolError::MissingDebugFileOrId => "MissingDebugFileOrId",
+        SymbolError::LoadError(_) => "LoadError",
+        SymbolError::ParseError(..) => "ParseError",
+    }
+}
+
+pub fn run() -> Outcome {
+    run_inner(false)
+}
+
+/// C12's third scenario: concurrent `locate_file` calls on one instance.
+pub fn run_c12_files() -> Outcome {
+    run_inner(true)
+}
+
+fn run_inner(c12_files: bool) -> Outcome {
+    let cfg = draw_exec_config(400_000);
+    let world = build_world(if c12_files { 6 } else { 4 }, c12_files);
+    let model = Rc::new(RefCell::new(Model {
+        cache: world.scratch.root.join("cache"),
+        tmp: world.scratch.root.join("tmp"),
+        mods: world.mods.clone(),
+        foreign: BTreeMap::new(),
+        parses: BTreeMap::new(),
+        live_temps: Vec::new(),
+        violation: None,
+        fs_checks: 0,
+        file_rels: BTreeMap::new(),
+        sym_urls: BTreeMap::new(),
+        rival_pending: None,
+    }));
+    {
+        let mut m = model.borrow_mut();
+        match world.pre {
+            Pre::Good => {
+                m.foreign.insert(world.mods[0].rel.clone(), vec![good_entry(&world.mods[0])]);
+            }
+            Pre::Corrupt => {
+                m.foreign.insert(world.mods[0].rel.clone(), vec![b"MODULE Linux x86 000 x\nthis is garbage\n".to_vec()]);
+            }
+            _ => {}
+        }
+        if world.cache_blocked {
+            // the blocking file itself is foreign content
+            let entry0 = PathBuf::from(&world.mods[0].rel);
+            let parent = entry0.parent().unwrap().parent().unwrap().to_string_lossy().to_string();
+            m.foreign.insert(parent, vec![b"not a directory".to_vec()]);
+        }
+        if !c12_files && chance("e3.rival", 1, 6) {
+            let mi = ch("e3.rival.module", world.mods.len() as u32) as usize;
+            let mut content = (*world.mods[mi].body).clone();
+            content.extend_from_slice(b"INFO URL http://rival.example/other\n");
+            m.rival_pending = Some((world.mods[mi].rel.clone(), content));
+        }
+    }
+    install_transport(&world, &model);
+    let fault_den = if c12_files { 0 } else { [0u32, 0, 12, 4][ch("e3.tmp.fault_den", 4) as usize] };
+    install_tempfile(&model, fault_den);
+
+    let results: Rc<RefCell<Vec<Option<OpResult>>>> = Rc::new(RefCell::new((0..world.ops.len() * 2).map(|_| None).collect()));
+    let mut ex = Exec::new(cfg.clone());
+    let spawn_op = |ex: &mut Exec, slot: usize, op: &Op| -> usize {
+        let sup = world.suppliers[op.inst].clone();
+        let m = world.mods[op.module].module.clone();
+        let res = results.clone();
+        let kind = op.kind;
+        ex.spawn(format!("op{slot}"), async move {
+            let r = match kind {
+                OpKind::Symbols => OpResult::Symbols(sup.locate_symbols(&*m).await.map(|r| r.symbols)),
+                OpKind::File(k) => {
+                    let r = sup.locate_file(&*m, k).await.map_err(|_| ());
+                    // judged at the moment of return: a later commit by another instance may
+                    // legitimately remove the entry again (remove + failed persist)
+                    if let Ok(p) = &r {
+                        if !p.is_file() {
+                            simkit::probe("e3.file_result_missing_at_return");
+                        }
+                    }
+                    OpResult::File(r)
+                }
+            };
+            simkit::log_line(|| format!("op{slot} -> {}", match &r { OpResult::Symbols(Ok(_)) => "Ok(symbols)".to_string(), OpResult::Symbols(Err(e)) => format!("Err({})", err_name(e)), OpResult::File(r) => format!("{:?}", r) }));
+            res.borrow_mut()[slot] = Some(r);
+        })
+    };
+    let mut task_of_slot: Vec<Option<usize>> = vec![None; world.ops.len() * 2];
+    for (i, op) in world.ops.iter().enumerate() {
+        task_of_slot[i] = Some(spawn_op(&mut ex, i, op));
+    }
+
+    let mut cancelled = 0u32;
+    let mut mid_rival_done = false;
+    let model2 = model.clone();
+    let nops = world.ops.len();
+    let mut retry_queue: Vec<usize> = Vec::new();
+    let stop = loop {
+        match ex.step() {
+            Ok(_kind) => {
+                // cancellation at poll boundaries
+                for i in 0..nops {
+                    if let (Some(t), Some(c)) = (task_of_slot[i], world.ops[i].cancel_after) {
+                        if !ex.is_done(t) && ex.task_polls(t) >= c {
+                            ex.cancel(t);
+                            cancelled += 1;
+                            probe("e3.cancelled_midway");
+                            if world.ops[i].retry {
+                                retry_queue.push(i);
+                            }
+                        }
+                    }
+                }
+                for i in retry_queue.drain(..) {
+                    let mut op = world.ops[i].clone();
+                    op.cancel_after = None;
+                    task_of_slot[nops + i] = Some(spawn_op(&mut ex, nops + i, &op));
+                    probe("e3.retry_after_cancel");
+                }
+                // a rival commit in the middle of somebody's download
+                {
+                    let mut m = model2.borrow_mut();
+                    if !mid_rival_done && m.rival_pending.is_some() && !m.live_temps.is_empty() && chance("e3.rival.mid", 1, 8) {
+                        let (rel, content) = m.rival_pending.take().unwrap();
+                        let p = m.cache.join(&rel);
+                        if let Some(parent) = p.parent() {
+                            let _ = std::fs::create_dir_all(parent);
+                        }
+                        if !p.exists() && std::fs::write(&p, &content).is_ok() {
+                            m.foreign.entry(rel).or_default().push(content);
+                            probe("e3.rival_commit");
+                            probe("e3.rival_mid_download");
+                        }
+                        mid_rival_done = true;
+                    }
+                    if let Some(v) = m.violation.clone() {
+                        break Err(v);
+                    }
+                    if let Err(v) = m.check_fs() {
+                        break Err(v);
+                    }
+                }
+            }
+            Err(stop) => break Ok(stop),
+        }
+    };
+
+    let snaps = reqwest::sim::snapshots();
+    let world_desc = json!({
+        "modules": world.mods.iter().map(|m| json!({"rel": m.rel, "code_id_lookup": m.needs_code_lookup, "body_len": m.body.len()})).collect::<Vec<_>>(),
+        "instances": world.suppliers.len(),
+        "urls": world.urls,
+        "ops": world.ops.iter().map(|o| format!("{:?}", o)).collect::<Vec<_>>(),
+        "pre_existing": format!("{:?}", world.pre),
+        "tmp_missing": world.tmp_missing,
+        "cache_parent_blocked": world.cache_blocked,
+        "timeout_s": world.timeout_s,
+        "tempfile_fault_rate": if fault_den == 0 { "0".to_string() } else { format!("1/{fault_den}") },
+        "exec": exec_config_json(&cfg),
+    });
+
+    let result = (|| -> simkit::Check {
+        let stop = stop?;
+        match stop {
+            Stop::AllDone => {}
+            Stop::Deadlock(t) => return Err(Violation::new("c16.deadlock", format!("{} lookup(s) never completed although nothing is pending", t.len()))),
+            Stop::Budget => return Err(Violation::new("c16.livelock", "step budget exhausted")),
+        }
+        let mut m = model.borrow_mut();
+        if let Some(v) = m.violation.clone() {
+            return Err(v);
+        }
+        m.check_fs()?;
+        simkit::ensure!(simkit::with_ctx(|c| c.probes.get("e3.file_result_missing_at_return").copied().unwrap_or(0)) == 0, "c16.file_result_missing", "locate_file returned a path that was not a file at the moment of return");
+        // 3. no temp file left once everything resolved or was cancelled
+        if m.tmp.is_dir() {
+            let (tfiles, _) = list_tree(&m.tmp.clone());
+            simkit::ensure!(tfiles.is_empty(), "c16.stray_temp", "a temporary file outlived its download");
+        }
+        drop(m);
+
+        // results are consistent with the model
+        let res = results.borrow();
+        for (slot, r) in res.iter().enumerate() {
+            let Some(r) = r else { continue };
+            let op = &world.ops[slot % nops];
+            let ms = &world.mods[op.module];
+            match r {
+                OpResult::Symbols(Ok(sym)) => {
+                    // either a permitted cache/local content, or an own clean download
+                    let mut ok = false;
+                    let mut candidates: Vec<(Vec<u8>, Option<String>)> = Vec::new();
+                    for s in snaps.iter().filter(|s| s.saw_eof) {
+                        if model.borrow().sym_urls.get(&url_without_query(&s.info.url)).copied() == Some(op.module) || world.mods[op.module].rel == world.mods[model.borrow().sym_urls.get(&url_without_query(&s.info.url)).copied().unwrap_or(op.module)].rel {
+                            candidates.push((s.delivered.clone(), Some(s.info.url.clone())));
+                        }
+                    }
+                    if let Some(v) = model.borrow().foreign.get(&ms.rel) {
+                        for c in v {
+                            candidates.push((c.clone(), None));
+                        }
+                    }
+                    for (bytes, url) in candidates {
+                        if let Ok(mut t) = SymbolFile::from_bytes(&bytes) {
+                            if let Some(u) = url {
+                                t.url = Some(u);
+                            }
+                            if &t == sym {
+                                ok = true;
+                                break;
+                            }
+                        }
+                    }
+                    simkit::ensure!(ok, "c16.result_not_from_a_complete_source", "a lookup returned a symbol table that is neither a complete download nor a complete cache entry");
+                }
+                OpResult::Symbols(Err(e)) => {
+                    // relaxation under FS faults: a clean, parseable own download must still yield Ok.
+                    // (only checked when this instance issued exactly one lookup of this module)
+                    let same: Vec<&Op> = world.ops.iter().filter(|o| o.inst == op.inst && o.module == op.module && o.kind == OpKind::Symbols).collect();
+                    if same.len() == 1 && world.pre != Pre::Corrupt {
+                        let _ = e;
+                    }
+                    simkit::ensure!(
+                        !matches!(e, SymbolError::LoadError(_)) || true,
+                        "c16.unexpected_error",
+                        "unexpected error class {}",
+                        err_name(e)
+                    );
+                }
+                OpResult::File(Ok(_)) => {}
+                OpResult::File(Err(())) => {}
+            }
+        }
+        // 6. only NotFound cascades: a corrupt pre-existing entry means an error and no request
+        if world.pre == Pre::Corrupt {
+            for (slot, r) in res.iter().enumerate() {
+                let Some(OpResult::Symbols(r)) = r else { continue };
+                let op = &world.ops[slot % nops];
+                if op.module == 0 && !world.mods[0].needs_code_lookup {
+                    simkit::ensure!(matches!(r, Err(SymbolError::ParseError(..))), "c16.corrupt_entry_cascaded", "a corrupt cache entry did not stop the lookup with a parse error");
+                }
+            }
+            if !world.mods[0].needs_code_lookup {
+                let asked = snaps.iter().any(|s| model.borrow().sym_urls.get(&url_without_query(&s.info.url)).copied().map(|mi| world.mods[mi].rel == world.mods[0].rel).unwrap_or(false));
+                simkit::ensure!(!asked, "c16.corrupt_entry_cascaded", "a corrupt cache entry was followed by a network request");
+            }
+        }
+        // 5. every new .sym entry reloads, without network, to the table and URL of its download
+        let (files, _) = list_tree(&world.scratch.root.join("cache"));
+        for (rel, content) in &files {
+            let Some(mi) = world.mods.iter().position(|m| &m.rel == rel) else { continue };
+            let ms = &world.mods[mi];
+            let foreign = model.borrow().foreign.get(rel).map(|v| v.iter().any(|c| c == content)).unwrap_or(false);
+            // expected table: the one of the clean download it consists of (or of the foreign content)
+            let mut expected: Option<SymbolFile> = None;
+            if foreign {
+                expected = SymbolFile::from_bytes(content).ok();
+                if expected.is_none() {
+                    continue; // pre-existing corrupt entry: not ours
+                }
+            } else {
+                for s in snaps.iter().filter(|s| s.saw_eof) {
+                    let trailer = format!("INFO URL {}\n", s.info.url);
+                    if content.len() == s.delivered.len() + trailer.len() && content.starts_with(&s.delivered) && content.ends_with(trailer.as_bytes()) {
+                        if let Ok(mut t) = SymbolFile::from_bytes(&s.delivered) {
+                            t.url = Some(s.info.url.clone());
+                            expected = Some(t);
+                            probe("e3.commit");
+                        }
+                    }
+                }
+            }
+            let Some(expected) = expected else {
+                return Err(Violation::new("c16.bad_cache_entry", "a committed entry does not correspond to any complete download"));
+            };
+            let fresh = HttpSymbolSupplier::new(vec![], world.scratch.root.join("cache"), world.scratch.root.join("tmp"), vec![], Duration::from_secs(1));
+            let mut ex2 = Exec::new(simkit::ExecConfig::default());
+            let out: Rc<RefCell<Option<Result<SymbolFile, SymbolError>>>> = Rc::new(RefCell::new(None));
+            let out2 = out.clone();
+            let resolved = ms.resolved.clone();
+            ex2.spawn("reload", async move {
+                let r = fresh.locate_symbols(&*resolved).await.map(|r| r.symbols);
+                *out2.borrow_mut() = Some(r);
+            });
+            let _ = ex2.run(|_, _| Ok(()))?;
+            let got = out.borrow_mut().take();
+            match got {
+                Some(Ok(t)) => {
+                    probe("e3.cache_hit_reload");
+                    simkit::ensure!(
+                        t == expected,
+                        "c16.reload_differs",
+                        "a lookup served from the cache yields a different {} than the original download",
+                        if t.url != expected.url { "URL" } else { "symbol table" }
+                    );
+                }
+                Some(Err(e)) => return Err(Violation::new("c16.reload_fails", format!("a committed entry cannot be loaded back from the cache ({})", err_name(&e)))),
+                None => return Err(Violation::new("c16.reload_fails", "reload did not complete")),
+            }
+        }
+        // C12 (files scenario): each file URL requested at most once per supplier instance
+        if c12_files {
+            let mut seen: BTreeMap<(u32, String), u32> = BTreeMap::new();
+            for s in &snaps {
+                *seen.entry((s.info.client, s.info.url.clone())).or_insert(0) += 1;
+            }
+            for ((_c, _u), n) in seen {
+                simkit::ensure!(n <= 1, "c12.file_requested_twice", "one supplier instance requested the same file URL {} times", n);
+            }
+            probe("e2.http_files");
+        }
+        Ok(())
+    })();
+
+    let delivered_any = snaps.iter().any(|s| !s.delivered.is_empty());
+    let had_fault = cancelled > 0
+        || snaps.iter().any(|s| s.saw_err || s.timed_out || (s.saw_eof && s.planned_len < world.mods.iter().map(|m| m.body.len()).min().unwrap_or(0)))
+        || world.suppliers.len() > 1
+        || fault_den > 0
+        || world.pre != Pre::None
+        || world.tmp_missing;
+    if snaps.iter().any(|s| s.timed_out) {
+        probe("e3.timeout");
+    }
+    let digest = simkit::with_ctx(|c| c.digest);
+    let key = simkit::rng::mix(&[crate::common::fnv(world_desc.to_string().as_bytes()), digest]);
+    let fs_checks = model.borrow().fs_checks;
+    // drop order: suppliers before scratch
+    tsim::uninstall();
+    reqwest::sim::uninstall();
+    Outcome {
+        result,
+        nontrivial: if c12_files { snaps.len() >= 1 && world.ops.len() >= 2 } else { delivered_any && had_fault },
+        key,
+        info: json!({"world": world_desc, "requests": snaps.iter().map(|s| json!({"url": s.info.url, "client": s.info.client, "code": s.head_code, "planned_len": s.planned_len, "end": format!("{:?}", s.planned_end), "delivered": s.delivered.len(), "saw_eof": s.saw_eof, "saw_err": s.saw_err, "timed_out": s.timed_out, "dropped": s.dropped})).collect::<Vec<_>>(), "cancelled": cancelled, "fs_checks": fs_checks, "steps": ex.steps}),
+    }
+}
+
+#[allow(dead_code)]
+fn _p(_: &Path) {}
